@@ -48,6 +48,11 @@ def observe(cls, data_len, pc, m, variant, rng, seed_pat):
     msg = impl.fill_message(cls(), rng)
     data = common.pat(seed_pat, data_len)
     tmp = None
+    if not data_len and variant in ('bytesio', 'bytesio_off', 'file', 'file_off'):
+        # a stream with nothing (left) to read is "no data set": no data fragment, certainly not an empty one
+        prefix = common.pat(seed_pat + 1, 1 + seed_pat % 300) if variant.endswith('_off') else b''
+        msg.data_set = io.BytesIO(prefix)
+        msg.data_set.seek(len(prefix))
     if data_len:
         if variant == 'bytes':
             msg.data_set = data
@@ -137,7 +142,7 @@ def gen_cases(tier, rng):
     for m in range(7, hi + 1):                      # exhaustive box
         for n in range(0, 3 * (m - 6) + 3):
             add(dm.CEchoRSPMessage if (m + n) % 2 else dm.CFindRSPMessage, n, 1 + 2 * ((m + n) % 100), m,
-                ['bytes', 'bytesio', 'file'][(m + n) % 3] if n else 'bytes')
+                ['bytes', 'bytesio', 'file'][(m + n) % 3])
     for cls in classes:                             # every message class
         for m in (7, 64, 1024):
             for n in (0, 1, m - 6, 3 * (m - 6) + 1):
